@@ -172,14 +172,14 @@ EXTRA = {
     "C04": " Re-entrant destinations. Print history on a thread (working / failing / panicking destinations); deciding-character positions dense to 1 100. Printing at thread exit; eight threads printing at once (sampled). Failing destination: printing into a writer that accepts k bytes, for every k, then a normal print on the same thread. The option-less conversions (Display, to_string, String::from(value)) must round-trip as well.",
     "C13": " Re-entrant destinations. All 81 ordered pairs of limit kinds (array x object) around long scalars. Print history on a thread; indentation runs across 2^15 and 2^16. P2-all: every ordered pair of 101 neighbouring characters at several offsets under straddling width limits. Every numeric option field through the dense size list on four base records. Display under caller format parameters. Depth x indent family: nesting depths 1..40 and around 48/64/86/128 x 25 indent units, pretty and always-expanded. Other print routes: Print::fmt_with at base indentation levels 1 and 2 (the level-0 text with k more indent units after every line break), &Value, Meta<Value, M>, Stripped<Meta<...>>.",
     "C09": " Writes through every &mut Value accessor between canonicalizations. Deciding key pairs among 15..257 filler members. Every assignment of 6 value kinds to the members of every selection of up to 3 keys; decimal-point-shifted spellings. Operation sequences (canonicalize / sort / push / remove / clone / clone_from, up to 3-4 steps) before canonicalization. Medium-precision spellings: every structured double rounded to 14..18 significant digits, last digit -1/0/+1, exponent and positional notation, both signs. Prefixed-keys family: common prefixes of every length 0..17 and around 24/32/64 (1-, 2-, 3-, 4-byte characters) x every ordered pair of 14 deciding tails x 3 suffix patterns. Every value is canonicalized through Value::canonicalize, Value::canonicalize_with with a number buffer reused across all calls of the thread, and (objects) Object::canonicalize / canonicalize_with; the routes must agree.",
-    "C10": " Writes through every &mut Value accessor between canonicalizations. Value kinds and shifted spellings as in C09. Operation sequences as in C09. All medium-precision spellings of one double must canonicalize identically. Prefixed-keys family as in C09, also with equal member values. Every document is read through parse_str and parse_slice; both must canonicalize identically.",
-    "C15": " Permutation twins under a 2- or 3-fold duplicated key, all pairs. Every ordered pair of 32 confusable scalars in five shapes. Objects whose extend was interrupted by a panicking source. Objects built through grow-and-drain routes (peaks through the index thresholds, four removal patterns) against fresh permutations. Pumped objects also with every value wrapped in a two-member object whose members are swapped in every other entry; Meta<Value, M> and Vec<Value> carriers.",
-    "C16": " Empty payloads (field-less / all-skipped struct variants, empty structs and tuples). Every leaf kind x 11 buffered (flatten / tagged / untagged) placements. Maps with number-like keys inside untagged / internally tagged / flattened types; hand-written impls with every length-hint pattern. Std containers and smart pointers (Box, Cow, arrays, 1-tuples, sets, deques, nested options, NonZero, Duration, Range, Result, paths, addresses) and a collect_str type as value and key.",
+    "C10": " Zero-padded and signed exponents of every respelling. Writes through every &mut Value accessor between canonicalizations. Value kinds and shifted spellings as in C09. Operation sequences as in C09. All medium-precision spellings of one double must canonicalize identically. Prefixed-keys family as in C09, also with equal member values. Every document is read through parse_str and parse_slice; both must canonicalize identically.",
+    "C15": " Objects reordered in place by canonicalize / sort against themselves and their originals. Permutation twins under a 2- or 3-fold duplicated key, all pairs. Every ordered pair of 32 confusable scalars in five shapes. Objects whose extend was interrupted by a panicking source. Objects built through grow-and-drain routes (peaks through the index thresholds, four removal patterns) against fresh permutations. Pumped objects also with every value wrapped in a two-member object whose members are swapped in every other entry; Meta<Value, M> and Vec<Value> carriers.",
+    "C16": " Newtype, transparent and doubly wrapped map keys around every integer width, char and unit variants. Empty payloads (field-less / all-skipped struct variants, empty structs and tuples). Every leaf kind x 11 buffered (flatten / tagged / untagged) placements. Maps with number-like keys inside untagged / internally tagged / flattened types; hand-written impls with every length-hint pattern. Std containers and smart pointers (Box, Cow, arrays, 1-tuples, sets, deques, nested options, NonZero, Duration, Range, Result, paths, addresses) and a collect_str type as value and key.",
     "C06": " Guards dropped while the thread unwinds (disciplines unwind, one-unwind); thread-hopping replay of counterexamples. Start states drained to 0-1 entries and refilled with every 2..4-entry layout over two keys (duplicate layouts x an oversized table). Action canonicalize() and a run over two keys on which code-point and UTF-16 order differ; panicking value constructors. Actions extend_entries_then_panic / extend_pairs_then_panic (source panics after k items, panic caught, object reused); lookup iterators through the whole Iterator protocol in every audit. Hash mode 3 (hook): every key index gets its own seed, as in production; action clone_from(n) into an independently built object; audits are not memoised in that mode.",
     "C14": " Deep pairs (re-bracketing twins under up to 1 000 containers). A law universe over keys on which byte order and UTF-16 order differ. Leaked guards (mem::forget after k steps of remove / insert / insert_front) against an object rebuilt from the leaked object's own entries. Operators < <= > >=, min and max on bare Objects against cmp. clone_from law on every ordered pair of values. Construction routes with real spare capacity (fresh buffers), truncated long keys, clones. Wide-object laws: for every n through the size thresholds, a base object and every combination of two out of eight edits (37 objects): == structural, cmp antisymmetric, Equal iff equal, transitive on all triples, hashes.",
     "C19": " Side-effecting keys must be evaluated once each, in written order. A side-effecting key expression with a call counter checked by every program. 18 token shapes of expression keys x 2 keys x 5 placements. Boundary literals: the limits of every integer and float width (type-suffixed), one step inside each, and the decimal thresholds, in three contexts; every program is built under catch_unwind so that a panic is attributed to its program.",
     "C18": " Sticky spellings with > 1 000 integer digits and a negative exponent. Decimal point moved 1..25 places with the exponent adjusted for 12 extreme doubles. Sticky-digit spellings (midpoint of two doubles, zeros past the 1 100th fraction digit, a final 1). Objects shaped like serde_json's arbitrary-precision number encoding (7 payloads x 4 placements) from both sides.",
-    "C20": " Iteration order checked against Kind's own Ord; KindSetIter through the whole (double-ended) Iterator protocol. Every rendering under eight caller format specs: the plain text, or the plain text formatted as a whole.",
+    "C20": " Operators the type may grow (!, -, ^) are probed at compile time: whatever they return must be a valid set. Iteration order checked against Kind's own Ord; KindSetIter through the whole (double-ended) Iterator protocol. Every rendering under eight caller format specs: the plain text, or the plain text formatted as a whole.",
     "C08": " Re-entrant destinations. Print history on a thread (working / failing / panicking destinations, then 7 compact and preset routes). Compact printing from a thread-local destructor at thread exit. Display under six caller format specs (width, fill, alignment, precision, alternate, zero): the compact text, or that text formatted as a whole (defect D15, fixed).",
     "C17": " Integral doubles at the edges of the integer types in float spellings (exact integer on return). Duplicate layouts of up to 5 members over three keys longer than 16 bytes. 13 reserved-looking keys x 12 payloads x 6 placements; every serde_json route into Value. deserialize_in_place (provided method) on every ordered pair of small values, bare and through Vec<Value>. Build-configuration dimension: a probe program compiled under every feature set containing serde must give identical digests of to_value / from_value::<Value>. Coherence: Object's own Serialize / Deserialize impls must agree with Value's on every object, duplicates included.",
 }
